@@ -16,6 +16,7 @@ def load_tsv(name):
 final = load_tsv("RESULTS.tsv")
 r2 = load_tsv("RESULTS_round2.tsv")
 r3 = load_tsv("RESULTS_round3.tsv")
+r4 = load_tsv("RESULTS_round4.tsv")
 def verdict(rs, own):
     mine = [x for x in rs if x["check"] == own]
     if not mine: return "not run"
@@ -35,10 +36,10 @@ for d in sorted(glob.glob(os.path.join(ROOT, "seeded", "C??-?"))):
     files = sorted(set(re.findall(r"^\+\+\+ b/(\S+)", open(d + "/patch.diff").read(), re.M)))
     old = json.load(open(d + "/meta.json")) if os.path.exists(d + "/meta.json") else {}
     n = int(id.split("-")[1])
-    rnd = 3 if n >= 5 else (2 if n >= 3 else 1)
-    first = old.get("checks_run", {}).get("first_round") if rnd == 1 else verdict((r2 if rnd == 2 else r3).get(id, []), id.split("-")[0])
+    rnd = 4 if n >= 7 else (3 if n >= 5 else (2 if n >= 3 else 1))
+    first = old.get("checks_run", {}).get("first_round") if rnd == 1 else verdict({2: r2, 3: r3, 4: r4}[rnd].get(id, []), id.split("-")[0])
     meta = {"id": id, "property": id.split("-")[0], "round": rnd, "title": title, "files_touched": files,
-            "origin": "written by an independent sub-agent that was given only the property text and a scratch git worktree of /repo (nothing from /verif)" + ("; second round, after the checks had been strengthened against the first 40" if rnd == 2 else ("; third round, after two rounds of strengthening" if rnd == 3 else "")),
+            "origin": "written by an independent sub-agent that was given only the property text and a scratch git worktree of /repo (nothing from /verif)" + ("; second round, after the checks had been strengthened against the first 40" if rnd == 2 else ("; third round, after two rounds of strengthening" if rnd == 3 else ("; fourth round, after three rounds of strengthening" if rnd == 4 else ""))),
             "change": sec("Change"), "what_goes_wrong": sec("What goes wrong"),
             "needs_to_manifest": sec("Needs in order to manifest") or sec("Needs, in order to manifest") or sec("Needed to manifest") or sec("Needs"),
             "why_tests_miss": sec("Why the existing tests do not notice") or sec("Why the tests do not notice"),
